@@ -189,7 +189,8 @@ void install_crash_handlers() {
 #endif
   atexit(on_exit_hook);
 }
-void end_ok() { g_ended = 1; LOG.line("{\"t\":\"end\"}"); }
+void report_env_names();
+void end_ok() { report_env_names(); g_ended = 1; LOG.line("{\"t\":\"end\"}"); }
 void harness_fail(const std::string& msg) {
   g_ended = 1;
   if (LOG.f) LOG.line(JObj().str("t", "harness_fail").str("msg", msg).done());
@@ -243,3 +244,33 @@ Outcome guarded(const std::function<void()>& f, bool expect_fatal) {
   return o;
 }
 }  // namespace vh
+
+// ---------------------------------------------------------------- environment variables consulted while the library runs
+// The harness defines getenv itself (the definition in the executable wins over libc's for every caller linked into it, i.e. the harness and
+// the library under test), records the names asked for and forwards to libc. Not under the sanitizers, whose runtimes interpose getenv themselves.
+#if !defined(__SANITIZE_ADDRESS__) && !defined(__SANITIZE_THREAD__)
+#if defined(__has_feature)
+#if __has_feature(address_sanitizer)
+#define VH_NO_GETENV_HOOK 1
+#endif
+#endif
+#ifndef VH_NO_GETENV_HOOK
+#include <dlfcn.h>
+namespace vh { static char g_env_names[64][64]; static int g_env_n = 0; }
+extern "C" char* getenv(const char* name) {
+  typedef char* (*fn)(const char*);
+  static fn real = (fn)dlsym(RTLD_NEXT, "getenv");
+  if (name && vh::g_env_n < 64) {
+    bool seen = false;
+    for (int i = 0; i < vh::g_env_n; i++) if (!strncmp(vh::g_env_names[i], name, 63)) { seen = true; break; }
+    if (!seen) { strncpy(vh::g_env_names[vh::g_env_n], name, 63); vh::g_env_names[vh::g_env_n][63] = 0; vh::g_env_n++; }
+  }
+  return real ? real(name) : nullptr;
+}
+namespace vh { void report_env_names() { for (int i = 0; i < g_env_n; i++) LOG.distinct("environment_variables_consulted", g_env_names[i]); } }
+#else
+namespace vh { void report_env_names() {} }
+#endif
+#else
+namespace vh { void report_env_names() {} }
+#endif
